@@ -1,22 +1,27 @@
 (* C12 proofs, part A: arithmetic, list helpers, ThrottleList invariant and its preservation by
    every ThrottleList method under the consumers' discipline. *)
 From Coq Require Import List NArith Bool Lia Permutation.
-From LTV Require Import Params_gen.
+From LTV.C12 Require Import ParamsGen.
 From LTV.C12 Require Import Model.
 Import ListNotations.
 Local Open Scope N_scope.
 
+Ltac splits := repeat match goal with |- _ /\ _ => split end.
+
 (* ------------------------------------------------------------------ bounds used by the theorems *)
 Definition cap : N := 65536.          (* largest max_chunk of the chunk table *)
-Definition Nmax : N := 4096.          (* nodes per list *)
+Definition Nmax : N := 1024.          (* nodes per list *)
 Definition Qmax : N := 67108864.      (* 2^26: quota handed to one list by one tick *)
 Definition HB : N := cap * Nmax + 2 * Qmax.
+Definition Kmax : N := 8.             (* slaves per root *)
 
 Lemma w32_val : w32 = 4294967296. Proof. reflexivity. Qed.
-Lemma HB_val : HB = 402653184. Proof. reflexivity. Qed.
+Lemma HB_val : HB = 201326592. Proof. reflexivity. Qed.
 
 Lemma add32_small a b : a + b < w32 -> add32 a b = a + b.
 Proof. intros; unfold add32; apply N.mod_small; assumption. Qed.
+
+Definition signed_used (q e : N) : N := if e =? 0 then q else sub32 q e.
 
 Lemma sub32_small a b : b <= a -> a < w32 -> sub32 a b = a - b.
 Proof.
@@ -26,6 +31,29 @@ Proof.
   replace (a + w32 - b) with ((a - b) + 1 * w32) by lia.
   rewrite N.mod_add by (rewrite w32_val; lia).
   apply N.mod_small. lia.
+Qed.
+
+(* subtracting the int32 "used" result (q - e, possibly negative) from a uint32 counter *)
+Lemma sub32_signed un q e : q <= un -> un < w32 -> e < w32 -> un + e - q < w32 ->
+  sub32 un (signed_used q e) = un + e - q.
+Proof.
+  intros H1 H2 H3 H4. unfold signed_used. destruct (N.eqb_spec e 0) as [->|He].
+  - rewrite sub32_small by lia. lia.
+  - destruct (N.le_gt_cases e q) as [Hle|Hgt].
+    + rewrite (sub32_small q e) by lia. rewrite sub32_small by lia. lia.
+    + assert (Hv : sub32 q e = q + w32 - e).
+      { unfold sub32. rewrite (N.mod_small e w32) by assumption. apply N.mod_small. lia. }
+      rewrite Hv. unfold sub32. rewrite (N.mod_small (q + w32 - e) w32) by lia.
+      replace (un + w32 - (q + w32 - e)) with (un + e - q) by lia. apply N.mod_small. assumption.
+Qed.
+
+Lemma cap_used_spec q un : un < w32 ->
+  exists e, cap_used q un = (signed_used q e, un - e) /\ e <= un /\ un - e <= q /\ (un <= q -> e = 0) /\ (q < un -> e = un - q).
+Proof.
+  intros Hu. unfold cap_used. destruct (N.ltb_spec q un) as [Hlt|Hge].
+  - exists (un - q). unfold signed_used. destruct (N.eqb_spec (un - q) 0); [lia|].
+    rewrite (sub32_small un q) by lia. replace (un - (un - q)) with q by lia. splits; try reflexivity; lia.
+  - exists 0. unfold signed_used. cbn [N.eqb]. rewrite N.sub_0_r. splits; try reflexivity; lia.
 Qed.
 
 (* ------------------------------------------------------------------ node lists *)
